@@ -1,0 +1,30 @@
+//go:build verif
+
+package group
+
+import (
+	"github.com/bandprotocol/chain/v3/cylinder/client"
+	"github.com/bandprotocol/chain/v3/cylinder/store"
+	"github.com/bandprotocol/chain/v3/pkg/tss"
+	"github.com/bandprotocol/chain/v3/x/tss/types"
+)
+
+// This file is compiled only with the build tag `verif`. It adds no behaviour: it exports the
+// daemon's round-3 share handling so that an external conformance driver can play DKG members
+// with exactly the code the cylinder daemon runs.
+
+// GetOwnPrivKey exposes getOwnPrivKey (decrypt + verify every received share; own private key or
+// the complaints to file).
+func GetOwnPrivKey(dkg store.DKG, groupRes *client.GroupResult) (tss.Scalar, []types.Complaint, error) {
+	return getOwnPrivKey(dkg, groupRes)
+}
+
+// GetSecretShare exposes getSecretShare (one sender's share for one receiver, or the complaint).
+func GetSecretShare(
+	receiverID tss.MemberID,
+	senderID tss.MemberID,
+	privKeyReceiver tss.Scalar,
+	groupRes *client.GroupResult,
+) (tss.Scalar, *types.Complaint, error) {
+	return getSecretShare(receiverID, senderID, privKeyReceiver, groupRes)
+}
